@@ -128,6 +128,25 @@ def step (s : St) (toks : List String) : St × String :=
     | .ok c' => (⟨c'.save, s.nkeys⟩, "ok")
     | .countMismatch => (s, "err:count")
     | .failed i => (s, s!"err:failed:{i}")
+  | ["exportlow"] => (s, "ok")          -- works on a clone: the wallet itself is not changed
+  | ["save"] => (⟨c.save, s.nkeys⟩, "ok")
+  | ["ximport", a] => (s, if (metaOf c a).isSome then "ok" else "nil")   -- the other wallet is outside the model
+  | ["chpwfault", a, o, n] =>
+    -- everything up to the save happens, the save fails, the change is rolled back
+    match c.changePassword crypto a (Proto.bytesOf o) (Proto.bytesOf n) [] with
+    | .error e => (s, errStr e)
+    | .ok _ => (s, if o == n then "ok-unexpected" else "err:save")
+  | ["chpwconc", a, o, news] =>
+    -- the write lock serialises the calls: the first one succeeds iff the old password is right, the others then
+    -- present a password that is no longer valid
+    let first := ((news.splitOn ",").headD "")
+    match c.changePassword crypto a (Proto.bytesOf o) (Proto.bytesOf first) [] with
+    | .error _ => (s, "winners=0")
+    | .ok _ => (s, "winners=1")
+  | ["chpwwon", a, o, n] =>
+    match c.changePassword crypto a (Proto.bytesOf o) (Proto.bytesOf n) [] with
+    | .error e => (s, errStr e)
+    | .ok c' => (⟨c', s.nkeys⟩, "ok")
   | ["reload"] =>
     let c' := c.reopen
     (⟨c', s.nkeys⟩, s!"ok n={c'.num} file={c'.accounts.length}")
